@@ -30,7 +30,7 @@
    outside user_response_wait is the outcome Fault). *)
 From BT Require Import Base.ListX.
 From BT Require SMSelect.SMSelectModel.
-Module Sel := BT.SMSelect.SMSelectModel.
+
 Local Open Scope N_scope.
 
 (* ---- byte helpers ---- *)
@@ -52,10 +52,10 @@ Definition rd32 (b : list N) : N := byte b 0 + 256 * byte b 1 + 65536 * byte b 2
 (* ---- configuration: the template arguments and the behaviour of the application's handlers ---- *)
 Inductive smvariant := MLegacy | MLesc | MBoth | MNone.
 Inductive yn_mode := SyncYes | SyncNo | Async.   (* what the application's sm_pairing_yes_no() does *)
-Record cfg := mkcfg {
+Record smcfg := mksmcfg {
   c_var : smvariant;
-  c_in : Sel.input_cap;
-  c_out : Sel.output_cap;
+  c_inp : SMSelectModel.input_cap;
+  c_outp : SMSelectModel.output_cap;
   c_oob : bool;         (* oob_authentication_callback<> present; the handler has data for even peers *)
   c_bond : bool;        (* bonding_data_base<> present *)
   c_yn : yn_mode;
@@ -64,9 +64,9 @@ Record cfg := mkcfg {
 }.
 (* configurations that compile: pairing_keyboard<> has no sm_pairing_request_yes_no(), so l2cap_input of the
    LESC-only and the combined manager cannot be instantiated with it *)
-Definition wf (c : cfg) : bool :=
-  match c_in c, c_var c with
-  | Sel.InKeyboard, MLesc | Sel.InKeyboard, MBoth => false
+Definition wf (c : smcfg) : bool :=
+  match c_inp c, c_var c with
+  | SMSelectModel.InKeyboard, MLesc | SMSelectModel.InKeyboard, MBoth => false
   | _, _ => true
   end.
 
@@ -170,8 +170,8 @@ Record state := mk {
   peer : N;
   encrypted : bool;
   link_status : N;
-  lalg : Sel.legacy_alg;
-  salg : Sel.lesc_alg;
+  lalg : SMSelectModel.legacy_alg;
+  salg : SMSelectModel.lesc_alg;
   leg : legacy_data;
   les : lesc_data;
   ltk : list N;
@@ -189,8 +189,8 @@ Definition set_st (s : state) (v : pstate) : state := mk (dead s) (oob_present s
 Definition set_peer (s : state) (v : N) : state := mk (dead s) (oob_present s) (rctr s) (passkey_in s) (resp_pending s) (bonds s) (st s) v (encrypted s) (link_status s) (lalg s) (salg s) (leg s) (les s) (ltk s) (pstatus s) (dist s).
 Definition set_encrypted (s : state) (v : bool) : state := mk (dead s) (oob_present s) (rctr s) (passkey_in s) (resp_pending s) (bonds s) (st s) (peer s) v (link_status s) (lalg s) (salg s) (leg s) (les s) (ltk s) (pstatus s) (dist s).
 Definition set_link_status (s : state) (v : N) : state := mk (dead s) (oob_present s) (rctr s) (passkey_in s) (resp_pending s) (bonds s) (st s) (peer s) (encrypted s) v (lalg s) (salg s) (leg s) (les s) (ltk s) (pstatus s) (dist s).
-Definition set_lalg (s : state) (v : Sel.legacy_alg) : state := mk (dead s) (oob_present s) (rctr s) (passkey_in s) (resp_pending s) (bonds s) (st s) (peer s) (encrypted s) (link_status s) v (salg s) (leg s) (les s) (ltk s) (pstatus s) (dist s).
-Definition set_salg (s : state) (v : Sel.lesc_alg) : state := mk (dead s) (oob_present s) (rctr s) (passkey_in s) (resp_pending s) (bonds s) (st s) (peer s) (encrypted s) (link_status s) (lalg s) v (leg s) (les s) (ltk s) (pstatus s) (dist s).
+Definition set_lalg (s : state) (v : SMSelectModel.legacy_alg) : state := mk (dead s) (oob_present s) (rctr s) (passkey_in s) (resp_pending s) (bonds s) (st s) (peer s) (encrypted s) (link_status s) v (salg s) (leg s) (les s) (ltk s) (pstatus s) (dist s).
+Definition set_salg (s : state) (v : SMSelectModel.lesc_alg) : state := mk (dead s) (oob_present s) (rctr s) (passkey_in s) (resp_pending s) (bonds s) (st s) (peer s) (encrypted s) (link_status s) (lalg s) v (leg s) (les s) (ltk s) (pstatus s) (dist s).
 Definition set_leg (s : state) (v : legacy_data) : state := mk (dead s) (oob_present s) (rctr s) (passkey_in s) (resp_pending s) (bonds s) (st s) (peer s) (encrypted s) (link_status s) (lalg s) (salg s) v (les s) (ltk s) (pstatus s) (dist s).
 Definition set_les (s : state) (v : lesc_data) : state := mk (dead s) (oob_present s) (rctr s) (passkey_in s) (resp_pending s) (bonds s) (st s) (peer s) (encrypted s) (link_status s) (lalg s) (salg s) (leg s) v (ltk s) (pstatus s) (dist s).
 Definition set_ltk (s : state) (v : list N) : state := mk (dead s) (oob_present s) (rctr s) (passkey_in s) (resp_pending s) (bonds s) (st s) (peer s) (encrypted s) (link_status s) (lalg s) (salg s) (leg s) (les s) v (pstatus s) (dist s).
@@ -203,38 +203,38 @@ Definition res := (state * list N * list event)%type.
    filled, then the constructors) and remote_connection_created( addr ) *)
 Definition new_connection (s : state) (a : N) : state :=
   mk (dead s) (oob_present s) (rctr s) (passkey_in s) (resp_pending s) (bonds s)
-     Idle (a mod 256) false no_key Sel.LJustWorks Sel.SJustWorks leg0 les0 (zeros 16) no_key dist0.
+     Idle (a mod 256) false no_key SMSelectModel.LJustWorks SMSelectModel.SJustWorks leg0 les0 (zeros 16) no_key dist0.
 
 Definition init_state (db0 : DB) : state :=
-  mk false false 0 0 false db0 Idle 0 false no_key Sel.LJustWorks Sel.SJustWorks leg0 les0 (zeros 16) no_key dist0.
+  mk false false 0 0 false db0 Idle 0 false no_key SMSelectModel.LJustWorks SMSelectModel.SJustWorks leg0 les0 (zeros 16) no_key dist0.
 
 (* security_manager_base::error_response: state.error_reset() + Pairing Failed *)
 Definition fail (s : state) (code : N) : res := (set_st s Idle, [5; code], []).
 
-Definition selcfg (c : cfg) : Sel.cfg := Sel.mkcfg Sel.VLegacy (c_in c) (c_out c) false.
-Definition local_io (c : cfg) : N := Sel.get_io_capabilities (c_out c) (c_in c).
+Definition selcfg (c : smcfg) : SMSelectModel.cfg := SMSelectModel.mkcfg SMSelectModel.VLegacy (c_inp c) (c_outp c) false.
+Definition local_io (c : smcfg) : N := SMSelectModel.get_io_capabilities (c_outp c) (c_inp c).
 (* accumulate_authentication_requirements_flags: bonding_data_base::flags = bonding *)
-Definition auth_flags (c : cfg) : N := if c_bond c then 1 else 0.
+Definition auth_flags (c : smcfg) : N := if c_bond c then 1 else 0.
 (* key_distribution_t::request_key_flags *)
-Definition key_flags (c : cfg) : N := if c_bond c then 1 else 0.
-Definition pairing_response (c : cfg) (io : list N) : list N :=
+Definition key_flags (c : smcfg) : N := if c_bond c then 1 else 0.
+Definition pairing_response (c : smcfg) (io : list N) : list N :=
   [2; byte io 0; byte io 1; byte io 2; 16; 0; key_flags c].
-Definition legacy_local_io_caps (c : cfg) (s : state) : list N :=
+Definition legacy_local_io_caps (c : smcfg) (s : state) : list N :=
   [local_io c; if oob_present s then 1 else 0; auth_flags c].
-Definition lesc_local_io_caps (c : cfg) : list N := [local_io c; 0; N.lor (auth_flags c) 8].
+Definition lesc_local_io_caps (c : smcfg) : list N := [local_io c; 0; N.lor (auth_flags c) 8].
 
 (* request_oob_data_presents_for_remote_device: the user's handler has data for peers with an even address byte *)
-Definition request_oob (c : cfg) (s : state) : state :=
+Definition request_oob (c : smcfg) (s : state) : state :=
   if c_oob c then set_oob_present s (N.even (peer s)) else s.
 (* get_oob_data_for_last_remote_device *)
-Definition oob_tk (c : cfg) : list N := if c_oob c then k_oob K else zeros 16.
+Definition oob_tk (c : smcfg) : list N := if c_oob c then k_oob K else zeros 16.
 
 Definition invalid_request (pdu : list N) : bool :=
   (4 <? byte pdu 1) || negb (N.land (byte pdu 2) 254 =? 0) || (byte pdu 4 <? 7) || (16 <? byte pdu 4)
   || negb (N.land (byte pdu 5) 240 =? 0) || negb (N.land (byte pdu 6) 240 =? 0).
 
-Definition c1_p1 (s : state) (pdu resp : list N) : list N := [1; 0] ++ firstn 7 pdu ++ firstn 7 resp.
-Definition c1_p2 (s : state) : list N := tl local_addr ++ tl (remote_addr (peer s)) ++ [0; 0; 0; 0].
+Definition c1_p1 (pdu resp : list N) : list N := [1; 0] ++ firstn 7 pdu ++ firstn 7 resp.
+Definition c1_p2 (a : N) : list N := tl local_addr ++ tl (remote_addr a) ++ [0; 0; 0; 0].
 
 Definition with_passkey (s : state) (k : list N) : state :=
   set_leg s (mkleg (l_p1 (leg s)) (l_p2 (leg s)) (l_srand (leg s)) (l_mconfirm (leg s)) k).
@@ -246,49 +246,49 @@ Definition with_mconfirm (s : state) (k : list N) : state :=
 Definition legacy_start (s : state) (pdu resp : list N) : res :=
   let srand := k_srand K (rctr s) in
   let s1 := set_rctr s (rctr s + 1) in
-  let s2 := set_leg s1 (mkleg (c1_p1 s pdu resp) (c1_p2 s) srand (l_mconfirm (leg s)) (l_passkey (leg s))) in
+  let s2 := set_leg s1 (mkleg (c1_p1 pdu resp) (c1_p2 (peer s)) srand (l_mconfirm (leg s)) (l_passkey (leg s))) in
   (set_st s2 LegacyRequested, resp, []).
 
 (* security_manager_base::legacy_handle_pairing_request *)
-Definition legacy_request (c : cfg) (s : state) (pdu : list N) : res :=
+Definition legacy_request (c : smcfg) (s : state) (pdu : list N) : res :=
   if negb (len pdu =? 7) then fail s 10
   else if negb (pstate_eqb (st s) Idle) then fail s 8
   else if invalid_request pdu then fail s 10
   else
     let s1 := request_oob c s in
-    let s2 := set_lalg s1 (Sel.legacy_select (selcfg c) (byte pdu 1) (byte pdu 2) (oob_present s1)) in
+    let s2 := set_lalg s1 (SMSelectModel.legacy_select (selcfg c) (byte pdu 1) (byte pdu 2) (oob_present s1)) in
     legacy_start s2 pdu (pairing_response c (legacy_local_io_caps c s2)).
 
 (* io_device_t::sm_pairing_passkey() *)
-Definition input_passkey (c : cfg) (s : state) : list N :=
-  match c_in c with
-  | Sel.InKeyboard => le32 (passkey_in s) ++ zeros 12
+Definition input_passkey (c : smcfg) (s : state) : list N :=
+  match c_inp c with
+  | SMSelectModel.InKeyboard => le32 (passkey_in s) ++ zeros 12
   | _ => zeros 16
   end.
 
 (* legacy_create_temporary_key *)
-Definition create_tk (c : cfg) (s : state) : state * list N :=
+Definition create_tk (c : smcfg) (s : state) : state * list N :=
   match lalg s with
-  | Sel.LOob => (s, oob_tk c)
-  | Sel.LPasskeyDisplay =>
+  | SMSelectModel.LOob => (s, oob_tk c)
+  | SMSelectModel.LPasskeyDisplay =>
       let k := k_passkey K (rctr s) in (with_passkey (set_rctr s (rctr s + 1)) k, k)
-  | Sel.LPasskeyInput => let k := input_passkey c s in (with_passkey s k, k)
-  | Sel.LJustWorks => (s, zeros 16)
+  | SMSelectModel.LPasskeyInput => let k := input_passkey c s in (with_passkey s k, k)
+  | SMSelectModel.LJustWorks => (s, zeros 16)
   end.
 (* legacy_temporary_key *)
-Definition stored_tk (c : cfg) (s : state) : list N :=
+Definition stored_tk (c : smcfg) (s : state) : list N :=
   match lalg s with
-  | Sel.LOob => oob_tk c
-  | Sel.LPasskeyDisplay | Sel.LPasskeyInput => l_passkey (leg s)
-  | Sel.LJustWorks => zeros 16
+  | SMSelectModel.LOob => oob_tk c
+  | SMSelectModel.LPasskeyDisplay | SMSelectModel.LPasskeyInput => l_passkey (leg s)
+  | SMSelectModel.LJustWorks => zeros 16
   end.
 
 (* io_device_t::sm_pairing_numeric_output( temp_key ) *)
-Definition display_tk (c : cfg) (tk : list N) : list event :=
-  match c_out c with Sel.OutNumeric => [EDisplay (rd32 tk)] | Sel.OutNone => [] end.
+Definition display_tk (c : smcfg) (tk : list N) : list event :=
+  match c_outp c with SMSelectModel.OutNumeric => [EDisplay (rd32 tk)] | SMSelectModel.OutNone => [] end.
 
 (* security_manager_base::legacy_handle_pairing_confirm *)
-Definition legacy_confirm (c : cfg) (s : state) (pdu : list N) : res :=
+Definition legacy_confirm (c : smcfg) (s : state) (pdu : list N) : res :=
   if negb (len pdu =? 17) then fail s 10
   else if negb (pstate_eqb (st s) LegacyRequested) then fail s 8
   else
@@ -297,7 +297,7 @@ Definition legacy_confirm (c : cfg) (s : state) (pdu : list N) : res :=
     (s2, 3 :: k_c1 K tk (l_srand (leg s2)) (l_p1 (leg s2)) (l_p2 (leg s2)), display_tk c tk).
 
 (* bonding_db_data_t::arm_key_distribution / no_bonding_data_base *)
-Definition arm_key_distribution (c : cfg) (s : state) : state * list event :=
+Definition arm_key_distribution (c : smcfg) (s : state) : state * list event :=
   if c_bond c then
     let '(key, rnd, ediv) := db_new D (bonds s) (rctr s) (remote_addr (peer s)) in
     let s1 := set_rctr s (rctr s + 1) in
@@ -306,15 +306,15 @@ Definition arm_key_distribution (c : cfg) (s : state) : state * list event :=
   else (s, []).
 
 (* legacy_pairing_completed of the connection data in use *)
-Definition legacy_completed (c : cfg) (s : state) (stk : list N) : state :=
+Definition legacy_completed (c : smcfg) (s : state) (stk : list N) : state :=
   let s1 := set_ltk (set_st s Completed) stk in
   match c_var c with
-  | MBoth => set_pstatus s1 (match lalg s with Sel.LJustWorks => unauthenticated_key | _ => authenticated_key end)
+  | MBoth => set_pstatus s1 (match lalg s with SMSelectModel.LJustWorks => unauthenticated_key | _ => authenticated_key end)
   | _ => s1
   end.
 
 (* security_manager_base::legacy_handle_pairing_random *)
-Definition legacy_random (c : cfg) (s : state) (pdu : list N) : res :=
+Definition legacy_random (c : smcfg) (s : state) (pdu : list N) : res :=
   if negb (len pdu =? 17) then fail s 10
   else if negb (pstate_eqb (st s) LegacyConfirmed) then fail s 8
   else
@@ -328,14 +328,14 @@ Definition legacy_random (c : cfg) (s : state) (pdu : list N) : res :=
       (s2, 4 :: srand, ev).
 
 (* ---- LESC ---- *)
-Definition lesc_start (c : cfg) (s : state) (pdu : list N) : res :=
-  let s1 := set_salg s (Sel.lesc_select (selcfg c) (byte pdu 1) (byte pdu 2) (oob_present s)) in
+Definition lesc_start (c : smcfg) (s : state) (pdu : list N) : res :=
+  let s1 := set_salg s (SMSelectModel.lesc_select (selcfg c) (byte pdu 1) (byte pdu 2) (oob_present s)) in
   let s2 := set_les s1 (mkles (s_sk (les s)) (s_pk (les s)) (s_rpk (les s)) (s_nonce (les s)) (s_rnonce (les s))
                               [byte pdu 1; byte pdu 2; byte pdu 3]) in
   (set_st s2 LescRequested, pairing_response c (lesc_local_io_caps c), []).
 
 (* security_manager_base::lesc_handle_pairing_request (the OOB callback is not asked here) *)
-Definition lesc_request (c : cfg) (s : state) (pdu : list N) : res :=
+Definition lesc_request (c : smcfg) (s : state) (pdu : list N) : res :=
   if negb (len pdu =? 7) then fail s 10
   else if negb (pstate_eqb (st s) Idle) then fail s 8
   else if invalid_request pdu then fail s 10
@@ -343,7 +343,7 @@ Definition lesc_request (c : cfg) (s : state) (pdu : list N) : res :=
   else lesc_start c s pdu.
 
 (* security_manager_impl::handle_pairing_request *)
-Definition both_request (c : cfg) (s : state) (pdu : list N) : res :=
+Definition both_request (c : smcfg) (s : state) (pdu : list N) : res :=
   if negb (len pdu =? 7) then fail s 10
   else if negb (pstate_eqb (st s) Idle) then fail s 8
   else if invalid_request pdu then fail s 10
@@ -351,13 +351,13 @@ Definition both_request (c : cfg) (s : state) (pdu : list N) : res :=
     let s1 := request_oob c s in
     if negb (N.land (byte pdu 3) 8 =? 0) then lesc_start c s1 pdu
     else
-      let s2 := set_lalg s1 (Sel.legacy_select (selcfg c) (byte pdu 1) (byte pdu 2) (oob_present s1)) in
+      let s2 := set_lalg s1 (SMSelectModel.legacy_select (selcfg c) (byte pdu 1) (byte pdu 2) (oob_present s1)) in
       let io := lesc_local_io_caps c in
       let io' := if c_legacy_oob c then [byte io 0; byte (legacy_local_io_caps c s2) 1; byte io 2] else io in
       legacy_start s2 pdu (pairing_response c io').
 
 (* lesc_handle_pairing_public_key *)
-Definition lesc_public_key (c : cfg) (s : state) (pdu : list N) : res :=
+Definition lesc_public_key (c : smcfg) (s : state) (pdu : list N) : res :=
   if negb (len pdu =? 65) then fail s 10
   else if negb (pstate_eqb (st s) LescRequested) then fail s 8
   else if negb (k_valid K (sub pdu 1 64)) then fail s 10
@@ -369,17 +369,17 @@ Definition lesc_public_key (c : cfg) (s : state) (pdu : list N) : res :=
     (set_st s2 LescKeysExchanged, 12 :: pk, []).
 
 (* pairing_numeric_output::sm_pairing_numeric_compare_output *)
-Definition display_compare (c : cfg) (s : state) : list event :=
-  match c_out c with
-  | Sel.OutNumeric => [EDisplay (k_g2 K (firstn 32 (s_rpk (les s))) (firstn 32 (s_pk (les s))) (s_rnonce (les s)) (s_nonce (les s)))]
-  | Sel.OutNone => []
+Definition display_compare (c : smcfg) (s : state) : list event :=
+  match c_outp c with
+  | SMSelectModel.OutNumeric => [EDisplay (k_g2 K (firstn 32 (s_rpk (les s))) (firstn 32 (s_pk (les s))) (s_rnonce (les s)) (s_nonce (les s)))]
+  | SMSelectModel.OutNone => []
   end.
 
 (* io_device_t::sm_pairing_request_yes_no: pairing_no_input does nothing; pairing_yes_no waits and calls the
    application, which answers at once or keeps the response object *)
-Definition request_yes_no (c : cfg) (s : state) : state * list event :=
-  match c_in c with
-  | Sel.InYesNo =>
+Definition request_yes_no (c : smcfg) (s : state) : state * list event :=
+  match c_inp c with
+  | SMSelectModel.InYesNo =>
       match c_yn c with
       | SyncYes => (set_st s UserSuccess, [EYesNo])
       | SyncNo => (set_st s UserFailed, [EYesNo])
@@ -389,14 +389,14 @@ Definition request_yes_no (c : cfg) (s : state) : state * list event :=
   end.
 
 (* lesc_handle_pairing_random *)
-Definition lesc_random (c : cfg) (s : state) (pdu : list N) : res :=
+Definition lesc_random (c : smcfg) (s : state) (pdu : list N) : res :=
   if negb (len pdu =? 17) then fail s 10
   else if negb (pstate_eqb (st s) LescConfirmSend) then fail s 8
   else
     let s1 := set_st (set_les s (mkles (s_sk (les s)) (s_pk (les s)) (s_rpk (les s)) (s_nonce (les s)) (sub pdu 1 16) (s_rio (les s))))
                      LescRandomExchanged in
     let '(s2, ev) := match salg s1 with
-                     | Sel.SNumeric => let '(s', e) := request_yes_no c s1 in (s', display_compare c s1 ++ e)
+                     | SMSelectModel.SNumeric => let '(s', e) := request_yes_no c s1 in (s', display_compare c s1 ++ e)
                      | _ => (s1, [])
                      end in
     if pstate_eqb (st s2) UserFailed then (set_st s2 Idle, [5; 1], ev)
@@ -405,21 +405,21 @@ Definition lesc_random (c : cfg) (s : state) (pdu : list N) : res :=
 (* f5 on the DH key of the stored keys *)
 Definition lesc_keys (s : state) : list N * list N :=
   k_f5 K (k_p256 K (s_sk (les s)) (s_rpk (les s))) (s_rnonce (les s)) (s_nonce (les s)) (remote_addr (peer s)) local_addr.
-Definition lesc_eb (c : cfg) (s : state) (mackey : list N) : list N :=
+Definition lesc_eb (c : smcfg) (s : state) (mackey : list N) : list N :=
   k_f6 K mackey (s_nonce (les s)) (s_rnonce (les s)) (zeros 16) (lesc_local_io_caps c) local_addr (remote_addr (peer s)).
 
 (* lesc_pairing_completed + store_lesc_key_in_bond_db *)
-Definition lesc_completed (c : cfg) (s : state) (key : list N) : state * list event :=
+Definition lesc_completed (c : smcfg) (s : state) (key : list N) : state * list event :=
   let s1 := set_ltk (set_st s Completed) key in
   let s2 := match c_var c with
-            | MBoth => set_pstatus s1 (match salg s with Sel.SJustWorks => unauthenticated_key | _ => authenticated_key end)
+            | MBoth => set_pstatus s1 (match salg s with SMSelectModel.SJustWorks => unauthenticated_key | _ => authenticated_key end)
             | _ => s1
             end in
   if c_bond c then (set_bonds s2 (db_store D (bonds s) (remote_addr (peer s)) key 0 0), [EStore key 0 0])
   else (s2, []).
 
 (* lesc_handle_pairing_dhkey_check *)
-Definition lesc_dhkey_check (c : cfg) (s : state) (pdu : list N) : res :=
+Definition lesc_dhkey_check (c : smcfg) (s : state) (pdu : list N) : res :=
   if negb (len pdu =? 17) then fail s 10
   else match st s with
   | UserWait => (s, [], [])
@@ -435,7 +435,7 @@ Definition lesc_dhkey_check (c : cfg) (s : state) (pdu : list N) : res :=
 (* lesc_security_manager_output_available / lesc_l2cap_output *)
 Definition lesc_output_available (s : state) : bool :=
   match st s with LescKeysExchanged | UserSuccess | UserFailed => true | _ => false end.
-Definition lesc_output (c : cfg) (s : state) : res :=
+Definition lesc_output (c : smcfg) (s : state) : res :=
   match st s with
   | LescKeysExchanged =>
       (set_st s LescConfirmSend,
@@ -447,7 +447,7 @@ Definition lesc_output (c : cfg) (s : state) : res :=
   end.
 
 (* bonding_db_data_t::distribute_keys / no_bonding_data_base *)
-Definition distribute_keys (c : cfg) (s : state) : res :=
+Definition distribute_keys (c : smcfg) (s : state) : res :=
   if c_bond c && encrypted s then
     if d_enc (dist s) then
       (set_dist s (mkdist false (d_id (dist s)) (zeros 16) (d_rand (dist s)) (d_ediv (dist s))), 6 :: d_key (dist s), [])
@@ -458,7 +458,7 @@ Definition distribute_keys (c : cfg) (s : state) : res :=
   else (s, [], []).
 
 (* l2cap_input of the four managers *)
-Definition l2cap_input (c : cfg) (s : state) (pdu : list N) : res :=
+Definition l2cap_input (c : smcfg) (s : state) (pdu : list N) : res :=
   match c_var c with
   | MNone => (s, [5; 5], [])
   | MLegacy =>
@@ -491,7 +491,7 @@ Definition l2cap_input (c : cfg) (s : state) (pdu : list N) : res :=
       end
   end.
 
-Definition l2cap_output (c : cfg) (s : state) : res :=
+Definition l2cap_output (c : smcfg) (s : state) : res :=
   match c_var c with
   | MNone => (s, [], [])
   | MLegacy => distribute_keys c s
@@ -500,11 +500,11 @@ Definition l2cap_output (c : cfg) (s : state) : res :=
   end.
 
 (* local_device_pairing_status of the connection data in use *)
-Definition local_status (c : cfg) (s : state) : N :=
+Definition local_status (c : smcfg) (s : state) : N :=
   match st s with
   | Completed =>
       match c_var c with
-      | MLegacy => match lalg s with Sel.LJustWorks => unauthenticated_key | _ => authenticated_key end
+      | MLegacy => match lalg s with SMSelectModel.LJustWorks => unauthenticated_key | _ => authenticated_key end
       | MLesc => unauthenticated_key
       | MBoth => pstatus s
       | MNone => no_key
@@ -513,7 +513,7 @@ Definition local_status (c : cfg) (s : state) : N :=
   end.
 
 (* find_key: the connection's own key first, then the bond data base *)
-Definition find_key (c : cfg) (s : state) (ediv rnd : N) : option (list N) :=
+Definition find_key (c : smcfg) (s : state) (ediv rnd : N) : option (list N) :=
   match c_var c with
   | MNone => None
   | _ =>
@@ -521,7 +521,7 @@ Definition find_key (c : cfg) (s : state) (ediv rnd : N) : option (list N) :=
       else if c_bond c then db_find D (bonds s) ediv rnd (remote_addr (peer s)) else None
   end.
 
-Definition step (c : cfg) (s : state) (o : op) : state * out :=
+Definition step (c : smcfg) (s : state) (o : op) : state * out :=
   if dead s then (s, OSkipped) else
   match o with
   | In pdu => let '(s1, r, ev) := l2cap_input c s pdu in (s1, OResp r ev)
@@ -542,13 +542,13 @@ Definition step (c : cfg) (s : state) (o : op) : state * out :=
   | Reset a => (new_connection s a, ODone)
   end.
 
-Fixpoint run (c : cfg) (s : state) (ops : list op) : list (op * out) :=
+Fixpoint run (c : smcfg) (s : state) (ops : list op) : list (op * out) :=
   match ops with
   | [] => []
   | o :: t => let '(s', r) := step c s o in (o, r) :: run c s' t
   end.
 
-Fixpoint run_state (c : cfg) (s : state) (ops : list op) : state :=
+Fixpoint run_state (c : smcfg) (s : state) (ops : list op) : state :=
   match ops with
   | [] => s
   | o :: t => run_state c (fst (step c s o)) t
